@@ -174,8 +174,36 @@ def _sibling_systems(g, text, sysw, M_sys, viols, stats):
             pass  # rejecting the under-determined text at construction is a refusal too
 
 
+def rotate_specifiers(text):
+    """the same components with the mass / percentage specifiers moved on by one component"""
+    import re
+
+    specs = re.findall(r"\.\|[^|]*\|", text)
+    if len(specs) < 2 or len(set(specs)) < 2:
+        return None
+    it = iter(specs[1:] + specs[:1])
+    return re.sub(r"\.\|[^|]*\|", lambda m: next(it), text)
+
+
+def _build_system(g, text, system_molweight):
+    return g.System(text, system_molweight) if system_molweight else g.System(text)
+
+
+def _screen_once(g, alt, system_molweight, seed):
+    import numpy as np
+
+    try:
+        s = _build_system(g, alt, system_molweight)
+        for k in range(2):
+            s.generate(rng=np.random.default_rng(seed % 1000 + k))
+    except SimAbort:
+        raise
+    except Exception:
+        pass
+
+
 def run_system(text, ops_seed, sched_kwargs, n_generators=1, faults=None, props=("C13",), system_molweight=None, max_steps=400,
-               wall=300, embed="stub", policy_rounds="random", check_generate=True, sibling_systems=False):
+               wall=300, embed="stub", policy_rounds="random", check_generate=True, sibling_systems=False, screen_first=False):
     """Returns dict with violations, stats, digest."""
     g = boot.load()
     faults = list(faults or [])
@@ -199,8 +227,18 @@ def run_system(text, ops_seed, sched_kwargs, n_generators=1, faults=None, props=
         with world:
             rng = SimRng(sched)
             prop_fget.__defaults__ = (rng,)
+            if screen_first:
+                # a formulation screen: another system with the same components and other shares (the specifiers rotated) is
+                # built, used once and released right before the audited system is built -- whatever the library remembers
+                # about a system by the identity of its parts now refers to a dead object
+                alt = rotate_specifiers(text)
+                if alt is not None and alt != text:
+                    stats["screened_system_first"] = 1
+                    _screen_once(g, alt, system_molweight, ops_seed)
+                    # (no gc.collect() here: the interpreter's free lists are what lets the next system land on the
+                    # addresses of the one just released)
             try:
-                system = g.System(text, system_molweight) if system_molweight else g.System(text)
+                system = _build_system(g, text, system_molweight)
             except Exception as exc:
                 return {"violations": [{"property": "C13", "invariant": "workload_rejected_by_parser",
                                         "msg": f"System({text!r}) raised {exc!r}", "features": []}], "stats": stats, "digest": world.digest(),
